@@ -18,6 +18,7 @@ CLAUSES = {
     909: "negative pool_size accepted / wrong error",
     910: "negative pool_size changed the pool",
     911: "harness: could not close the pool",
+    912: "a rejected request consumed a generated group name (the next unnamed request is named differently than without it)",
     77: "reachability twin",
 }
 FUNCTIONS = ["BaseTaskPool._check_start", "TaskPool.apply", "TaskPool._map", "TaskPool.map", "TaskPool.starmap",
@@ -67,23 +68,40 @@ def tpl_reject(size, m, pfx, locked, closed, notcoro, c, dup, _twin=False):
             pool = TaskPool(pool_size=size)
         it = Interp(w, pool, cbkind=0)
         gen_rec = {"pulled": 0}
-        try:
+
+        def prefix(it_):
             # history prefix: an existing group "G" (TaskPool) / start-group-0 with running and waiting tasks
+            base = len(w.W)
             if pfx >= 1:
-                if simple:
-                    it.start(2)
+                if it_.simple:
+                    it_.start(2)
                 else:
-                    it.apply(2, group="G")
+                    it_.apply(2, group="G")
                 w.settle()
             if pfx >= 2:
-                it.release(0)
+                it_.release(base)
                 w.settle()
             if pfx >= 3:
-                it.cancel(1)
+                it_.cancel(1)
                 w.settle()
             if pfx >= 4:
-                it.flush(True)
+                it_.flush(True)
                 w.settle()
+
+        def accepted_unnamed(p_):
+            """A valid, unnamed request of the same kind; returns the generated group name."""
+            fn = w.callsite(9, w.worker(9))
+            if m == 0:
+                return p_.apply(fn, num=0)
+            if m == 1:
+                return p_.map(fn, [], num_concurrent=1)
+            if m == 2:
+                return p_.starmap(fn, [], num_concurrent=1)
+            if m == 3:
+                return p_.doublestarmap(fn, [], num_concurrent=1)
+            return p_.start(0)
+        try:
+            prefix(it)
             if closed:
                 w.drain()
                 g = it.gather_and_close(True)
@@ -123,6 +141,7 @@ def tpl_reject(size, m, pfx, locked, closed, notcoro, c, dup, _twin=False):
                 causes.append(TaskGroupAlreadyExists)
             before = _snap(w, pool, gen_rec)
             err = None
+            retried_ok = False
             w.op("request:" + METHODS[m if isinstance(m, int) else [j for j in range(5) if m == j][0]], "locked" if locked else "-",
                  "closed" if closed else "-", "notcoro" if notcoro else "-", c, "dup" if dup else "-")
             try:
@@ -156,11 +175,23 @@ def tpl_reject(size, m, pfx, locked, closed, notcoro, c, dup, _twin=False):
                     rest = [k for k in causes if k is not PoolIsLocked]
                     try:
                         request()
+                        retried_ok = True
                         if rest:
                             code = 908
                     except Exception as e:  # noqa: BLE001
                         if not rest or not any(type(e) is k for k in rest):
                             code = 908
+                if not code and not closed and not dup and not pool.is_locked and not retried_ok:
+                    # no trace also means: the next generated group name is what it would have been without the
+                    # rejected request - compared with a twin pool that saw the same history minus the rejection
+                    if simple:
+                        twin = SimpleTaskPool(w.callsite(7, w.worker(7)), pool_size=size)
+                    else:
+                        twin = TaskPool(pool_size=size)
+                    prefix(Interp(w, twin, cbkind=0))
+                    n_here, n_twin = accepted_unnamed(pool), accepted_unnamed(twin)
+                    if n_here != n_twin:
+                        code = 912
         except Excluded as e:
             w.excluded = str(e)
         code = code or w.err
